@@ -25,4 +25,4 @@ for d in sorted(glob.glob(HERE + "/seeded/[CFGHIJ]*_*")):
     rows.append(f"| {sid} | {m['summary'][:150].replace('|', '/')} | {m['needs'][:110].replace('|', '/')} | {first.get((sid, p), '?')} | {now} | {suite.get(sid, '')} |")
 out = ["| seed | change | needs | first run | now (deciding monitor.clause) | repository suite with the patch (own run) |", "|---|---|---|---|---|---|"] + rows
 open(HERE + "/seeded/SUMMARY.md", "w").write("\n".join(out) + "\n")
-print(len(rows), "seeds;", sum(1 for r in rows if "caught" in r.split("|")[5]), "caught now;", sum(1 for r in rows if "MISSED" in r.split("|")[4]), "missed on first run")
+print(len(rows), "seeds;", sum(1 for r in rows if r.split("|")[5].strip().startswith("caught")), "caught now;", sum(1 for r in rows if "NOT CAUGHT BY DECISION" in r.split("|")[5]), "not caught by decision;", sum(1 for r in rows if "MISSED" in r.split("|")[4]), "missed on first run")
